@@ -79,7 +79,7 @@ def gen_coords(ck):
     add(-0.0, -0.0, 'signs')
     add(-180.0, 90.0, 'signs')
     add(-180.0, -90.0, 'signs')
-    n = 500 if ck.tier == 'quick' else 15000
+    n = 500 if ck.tier == "quick" else 4000
     sg = lambda: rng.choice([1, -1])   # noqa: E731
     for _ in range(n):
         # whole seconds
